@@ -100,6 +100,8 @@ func rep13Snapshot(sc c13Scenario, c *choice.C) map[string]any {
 	return map[string]any{"kind": "feed-cycle", "scenario": sc.String(), "choices": append([]int{}, c.Choices()...), "deviations": append([]string{}, c.Trace()...)}
 }
 
+func c13Honest(kind string) bool { return kind == "honest" || strings.HasPrefix(kind, "honest+") }
+
 func c13Exec(run *ev.Run, u *uni.U, gen *wh.CPGen, la wh.LogCfg, sc c13Scenario, c *choice.C, horizon int) {
 	m, fk := u.Main, u.Forks[0]
 	headBranch := m
@@ -132,8 +134,23 @@ func c13Exec(run *ev.Run, u *uni.U, gen *wh.CPGen, la wh.LogCfg, sc c13Scenario,
 		}
 	default:
 		headCP, _ = gen.Get(la, headBranch, sc.Head, "plain")
+		switch sc.Kind {
+		case "honest+foreign-first":
+			// A signature line of a key the witness does not know stands BEFORE
+			// the log's own line (another witness's cosignature, the log's next
+			// key): what the witness answers is then no byte-extension of what
+			// was submitted - note.Sign writes verified signatures first.
+			text, sigs, _ := uni.SplitNote(headCP)
+			headCP = []byte(text + "\n" + uni.JunkSigLines(1) + sigs[0] + "\n")
+		case "honest+dup-logsig":
+			headCP, _ = gen.Get(la, headBranch, sc.Head, "dup-logsig")
+		case "honest+own-cosig":
+			// The log serves a checkpoint that already carries this witness's
+			// (older) cosignature.
+			headCP, _ = gen.Get(la, headBranch, sc.Head, "stale-own-valid")
+		}
 	}
-	valid := sc.Kind == "honest" || sc.Kind == "fork"
+	valid := c13Honest(sc.Kind) || sc.Kind == "fork"
 
 	// Witness under test.
 	failRead := false // real mode: the witness's next storage read fails
@@ -495,7 +512,7 @@ func c13Exec(run *ev.Run, u *uni.U, gen *wh.CPGen, la wh.LogCfg, sc c13Scenario,
 	// the context never succeeded although nothing was failing any more.
 	// (Excluded: the real witness legitimately refuses a fork for ever, and
 	// refuses growth from a stored size-0 checkpoint - C08's known finding.)
-	expectSuccess := !permanentSeen && (!sc.Real || (sc.Kind == "honest" && !(sc.W == 0 && sc.Head > 0)))
+	expectSuccess := !permanentSeen && (!sc.Real || (c13Honest(sc.Kind) && !(sc.W == 0 && sc.Head > 0)))
 	if horizonHit && expectSuccess && c.Deviations() < horizon-1 {
 		run.Report(sig("no-success-after-failures-cleared"), desc(fmt.Sprintf("after the injected failures stopped the cycle kept failing until the horizon (%d timer starts): last error %v", horizon, err)), rep)
 	}
@@ -503,7 +520,7 @@ func c13Exec(run *ev.Run, u *uni.U, gen *wh.CPGen, la wh.LogCfg, sc c13Scenario,
 		run.Report(sig("no-success-after-failures-cleared"), desc("the failures stopped and the context was live, yet the cycle did not succeed"), rep)
 	}
 	// Real witness: final state.
-	if sc.Real && err == nil && sc.Kind == "honest" {
+	if sc.Real && err == nil && c13Honest(sc.Kind) {
 		st, _ := wh.StateOf(gen, env.Stored(la.ID()))
 		if !st.Has || int(st.Size) != sc.Head || !bytes.Equal(st.Root, m.Root(sc.Head)) {
 			run.Report(sig("final-state"), desc(fmt.Sprintf("cycle succeeded but the real witness holds %s, log head is %d", st.Key(), sc.Head)), rep)
@@ -549,6 +566,13 @@ func c13(tier string) int {
 						continue
 					}
 					scs = append(scs, c13Scenario{W: w, Head: head, Kind: kind, Real: real, Bound: bound})
+					if kind == "honest" && real && head > 0 {
+						// Honest checkpoints whose cosigned form is not a byte
+						// extension of what the log served.
+						for _, v := range []string{"honest+foreign-first", "honest+dup-logsig", "honest+own-cosig"} {
+							scs = append(scs, c13Scenario{W: w, Head: head, Kind: v, Real: real, Bound: 1})
+						}
+					}
 					// Thorough: one more deviation on the grid the quick tier uses.
 					if tier == "thorough" && kind == "honest" && (w == -1 || w == 0 || w == 2 || w == 5) && (head == 0 || head == 2 || head == 3 || head == 6) {
 						scs = append(scs, c13Scenario{W: w, Head: head, Kind: kind, Real: real, Bound: 3})
@@ -609,7 +633,7 @@ func c13(tier string) int {
 			run.Vacuous("cycle outcome %q never observed", k)
 		}
 	}
-	run.Set("rule", fmt.Sprintf("every ordered pair of (witness size, log size) over {1, 2, 2^31-1, 2^31, 2^32+1, 2^63-1, 2^63, 2^63+5, 2^64-2, 2^64-1} fault-free (ahead / equal / behind decided on the real numbers); and for witness state in {none, 0, 2, 5} x log head in {0, 2, 3, 6} (quick) / {none, 0..5} x 0..6 (thorough, plus a third deviation for honest logs on the quick grid) x {honest, fork of the witnessed prefix, wrong key, wrong origin, correctly signed but served with a malformed tail (extra LF, CRLF, trailing space, missing final LF, NUL)} x {recording stub witness, real witness behind the real witnessAdapter}: the real feeder.FeedOnce is run with every environment call answered by the explorer - FetchCheckpoint {ok, fail}, GetLatestCheckpoint {ok, transient failure of 3 kinds (plain error, per-request timeout wrapping context.DeadlineExceeded, inner context.Canceled), ok after another feeder advanced the witness}, FetchProof {ok, 3 failure kinds}, Update {ok, 3 failure kinds, witness advanced first}, back-off timer {fires at once, context ends at this wait} - for every placement of up to %d non-default answers (deviation-bounded DFS, positions discovered dynamically; the back-off timer is replaced by an overlay of backoff/timer.go so no wall-clock time passes; a horizon of %d timer starts ends the context). Oracle = reference model of one cycle (see DESIGN.md C13). distinct_nontrivial = distinct (scenario, placement) with at least one deviation", bound, bound+3))
+	run.Set("rule", fmt.Sprintf("every ordered pair of (witness size, log size) over {1, 2, 2^31-1, 2^31, 2^32+1, 2^63-1, 2^63, 2^63+5, 2^64-2, 2^64-1} fault-free (ahead / equal / behind decided on the real numbers); and for witness state in {none, 0, 2, 5} x log head in {0, 2, 3, 6} (quick) / {none, 0..5} x 0..6 (thorough, plus a third deviation for honest logs on the quick grid) x {honest (against the real witness also: a foreign signature line before the log's, the log's line twice, the witness's own older cosignature already on it), fork of the witnessed prefix, wrong key, wrong origin, correctly signed but served with a malformed tail (extra LF, CRLF, trailing space, missing final LF, NUL)} x {recording stub witness, real witness behind the real witnessAdapter}: the real feeder.FeedOnce is run with every environment call answered by the explorer - FetchCheckpoint {ok, fail}, GetLatestCheckpoint {ok, transient failure of 3 kinds (plain error, per-request timeout wrapping context.DeadlineExceeded, inner context.Canceled), ok after another feeder advanced the witness}, FetchProof {ok, 3 failure kinds}, Update {ok, 3 failure kinds, witness advanced first}, back-off timer {fires at once, context ends at this wait} - for every placement of up to %d non-default answers (deviation-bounded DFS, positions discovered dynamically; the back-off timer is replaced by an overlay of backoff/timer.go so no wall-clock time passes; a horizon of %d timer starts ends the context). Oracle = reference model of one cycle (see DESIGN.md C13). distinct_nontrivial = distinct (scenario, placement) with at least one deviation", bound, bound+3))
 	run.Assumption("the back-off timer overlay changes only whether/when the timer fires; retry policy, context handling and permanent-error logic are the library's and the repository's")
 	return run.Finish()
 }
